@@ -17,8 +17,8 @@ from .common import Scenario, run_property, HERE
 
 WRITERS = ["set_vertices", "set_values", "rename", "move", "copy_inside", "remove_vertices", "remove_data", "add_data",
            "group_membership", "remove_object", "set_flags", "set_cells", "remove_cells", "modify_values", "empty_group",
-           "move_data", "set_metadata", "create_group", "retype_data", "value_map"]
-READERS = ["read_everything", "copy_to_other_workspace", "monitored_copy", "load_ui_json", "reopen_same_mode"]
+           "move_data", "set_metadata", "create_group", "retype_data", "value_map", "hole_rename", "hole_collar", "hole_log_values"]
+READERS = ["read_everything", "copy_to_other_workspace", "monitored_copy", "load_ui_json", "reopen_same_mode", "close_then_open"]
 CALLS = WRITERS + READERS
 
 
@@ -44,15 +44,28 @@ class ReadOnlySequence(Scenario):
         o.find_or_create_property_group(name="PG", properties=[d1.uid])
         p = Points.create(ws, vertices=real_np.arange(9.0).reshape(3, 3) + 1, name="P", parent=h)
         s1 = p.add_data({"S1": {"values": real_np.arange(3.0)}})
+        from geoh5py.groups import DrillholeGroup
+        from geoh5py.objects import Drillhole
+        dg = DrillholeGroup.create(ws, name="DH")
+        hole = Drillhole.create(ws, parent=dg, name="hole", collar=[0.0, 0.0, 0.0], surveys=real_np.c_[[0.0, 10.0], [0.0, 0.0], [-90.0, -90.0]])
+        hole.add_data({"log": {"depth": real_np.array([1.0, 2.0]), "values": real_np.array([5.0, 6.0])}})
         uid = {"g": g.uid, "h": h.uid, "o": o.uid, "d1": d1.uid, "d2": d2.uid, "p": p.uid, "s1": s1.uid}
         ws.close()
-        del g, h, o, d1, d2, p, s1
+        del g, h, o, d1, d2, p, s1, dg, hole
+        if self.params.get("no_root"):          # a file without the optional Root link (the reader then builds a root in memory)
+            import h5py as _h
+            with _h.File(path, "r+") as f:
+                del f["GEOSCIENCE"]["Root"]
         with open(path, "rb") as fh:
             before = fh.read()
         mtime = os.stat(path).st_mtime_ns
         calls = [first] + [CALLS[int(cx.int(f"call{t}", 0, len(CALLS)))] for t in range(1, length)]
         ws = Workspace(path, mode="r")
         get = lambda k: ws.get_entity(uid[k])[0]      # noqa: E731
+
+        def the_hole():
+            grp = [x for x in ws.groups if x.name == "DH"][0]
+            return [x for x in grp.children if getattr(x, "name", None) == "hole"][0]
         for t, call in enumerate(calls):
             raised = None
             try:
@@ -100,6 +113,15 @@ class ReadOnlySequence(Scenario):
                     get("d1").entity_type = get("s1").entity_type
                 elif call == "value_map":
                     get("d2").entity_type.value_map = {1: "x", 2: "y"}
+                elif call == "hole_rename":
+                    the_hole().name = "renamed hole"
+                elif call == "hole_collar":
+                    the_hole().collar = [1.0, 2.0, 3.0]
+                elif call == "hole_log_values":
+                    the_hole().get_data("log")[0].values = real_np.array([7.0, 8.0])
+                elif call == "close_then_open":
+                    ws.close()
+                    ws.open()
                 elif call == "read_everything":
                     for e in list(ws.groups) + list(ws.objects) + list(ws.data):
                         for a in ("vertices", "cells", "values", "metadata", "property_groups", "children", "extent"):
@@ -121,7 +143,9 @@ class ReadOnlySequence(Scenario):
                     ui = deepcopy(default_ui_json)
                     ui["geoh5"] = path
                     ui["title"] = "t"
+                    ws.close()          # the helper opens the file named in the ui.json on the user's behalf: nobody else holds it
                     InputFile(ui_json=ui, validate=False).data      # noqa: B018
+                    ws = Workspace(path, mode="r")
                 elif call == "reopen_same_mode":
                     ws.close()
                     ws = Workspace(path, mode="r")
@@ -146,7 +170,9 @@ class ReadOnlySequence(Scenario):
 
 def scenarios(tier, seed):
     length = 2 if tier == "quick" else 3
-    return [ReadOnlySequence(first=c, length=length) for c in CALLS]
+    S = [ReadOnlySequence(first=c, length=length) for c in CALLS]
+    S += [ReadOnlySequence(first=c, length=2, no_root=True) for c in READERS + ["rename", "add_data"]]
+    return S
 
 
 def main(tier, seed):
@@ -159,6 +185,6 @@ def main(tier, seed):
                      "must work"],
         outside=["that h5py itself honours mode 'r' (trusted)", "other entity classes, longer sequences, concurrent writers",
                  "processes holding the file open elsewhere"],
-        bounds={"quick": "all sequences of 2 calls from an alphabet of 25", "thorough": "all sequences of 3 calls"}[tier],
+        bounds={"quick": "all sequences of 2 calls from an alphabet of 29", "thorough": "all sequences of 3 calls"}[tier],
         expected_outcomes={"ReadOnlySequence": {"ok"}}, validate_max=0,
     )
